@@ -37,6 +37,8 @@ type FuncContract struct {
 	Key      string
 	Requires []*Clause
 	Ensures  []*Clause
+	AfterCall []*AfterCallClause // intermediate assertions after calls of a named callee
+	AtReturn []*Clause // checked at every return like a postcondition, may name the function's local variables; not visible to callers
 	Modifies []Expr // nil + ModAll/ModNone flags
 	ModAll   bool
 	ModNone  bool
@@ -121,7 +123,7 @@ func newContracts() *Contracts {
 	return &Contracts{Funcs: map[string]*FuncContract{}, Specs: map[string]*SpecFunc{}, Ifaces: map[string]*FuncContract{}}
 }
 
-var keywordRe = regexp.MustCompile(`^(func|iface|spec|ufunc|axiom|lemma|requires|ensures|modifies|loop|inline|extern|pure|global|fresh|panicok|callback|typeinv|immutable)\b`)
+var keywordRe = regexp.MustCompile(`^(func|iface|spec|ufunc|axiom|lemma|requires|ensures|at-return|after-call|modifies|loop|inline|extern|pure|global|fresh|panicok|callback|typeinv|immutable)\b`)
 
 // loadContractFile parses one file; pkgPath is "" for /verif/specs files (full keys).
 func (C *Contracts) loadContractFile(path, pkgPath string) error {
@@ -238,18 +240,32 @@ func (C *Contracts) loadContractFile(path, pkgPath string) error {
 				return fail(fmt.Errorf("clause outside a func block"))
 			}
 			switch kw {
-			case "requires", "ensures":
+			case "requires", "ensures", "at-return":
 				lab, src := splitLabel(rest)
 				e, err := parseExpr(src)
 				if err != nil {
 					return fail(err)
 				}
 				cl := &Clause{Kind: kw, Label: lab, Expr: e, Src: src, File: path, Line: it.line}
-				if kw == "requires" {
+				switch kw {
+				case "requires":
 					cur.Requires = append(cur.Requires, cl)
-				} else {
+				case "ensures":
 					cur.Ensures = append(cur.Ensures, cl)
+				default:
+					cur.AtReturn = append(cur.AtReturn, cl)
 				}
+			case "after-call":
+				parts := strings.SplitN(strings.TrimSpace(rest), " ", 2)
+				if len(parts) != 2 {
+					return fail(fmt.Errorf("after-call <callee> [label] expr"))
+				}
+				lab, src := splitLabel(parts[1])
+				e, err := parseExpr(src)
+				if err != nil {
+					return fail(err)
+				}
+				cur.AfterCall = append(cur.AfterCall, &AfterCallClause{Callee: parts[0], Label: lab, Expr: e, Src: src})
 			case "modifies":
 				cur.ModSet = true
 				switch rest {
@@ -339,6 +355,14 @@ func (C *Contracts) loadContractFile(path, pkgPath string) error {
 		}
 	}
 	return nil
+}
+
+type AfterCallClause struct {
+	Callee string
+	Label  string
+	Expr   Expr
+	Src    string
+	Used   bool
 }
 
 // normalizeFuncKey turns "(*T).m", "T.m", "f" (package-relative) into the ssa
